@@ -9,7 +9,7 @@ use crate::snapshot::snapshot;
 fn leaves(c: &Cfg) -> usize {
     match c {
         Cfg::Mem | Cfg::Phys => 1,
-        Cfg::Alt(s, _) => leaves(s),
+        Cfg::Alt(s, _) | Cfg::Sub(s, _, _) => leaves(s),
         Cfg::Ov(l) => l.iter().map(leaves).sum(),
     }
 }
@@ -266,7 +266,13 @@ fn overlay_plans(tier: Tier) -> Vec<Plan> {
         &chain,
         false,
     ));
+    // layers that are directories inside other filesystems, at different depths (the layer paths
+    // have different lengths), used directly without an altroot in between
+    let subs = Cfg::Ov(vec![Cfg::sub(Cfg::Mem, "/rw"), Cfg::sub(Cfg::Mem, "/base/v1")]);
+    v.push(populated(subs.clone(), Order::Asc, alphabet(u3(), &W1, 1, true), &u2, true));
+    v.push(populated(Cfg::Ov(vec![Cfg::Phys, Cfg::sub(Cfg::Phys, "/image/base")]), Order::Asc, alphabet(u3(), &W1, 1, false), &u2, false));
     if tier == Tier::Thorough {
+        v.push(populated(Cfg::Ov(vec![Cfg::sub(Cfg::Mem, "/a/b/c"), Cfg::Mem, Cfg::sub(Cfg::Mem, "/x")]), Order::Asc, a3.clone(), &u2, false));
         v.push(populated(mem2(), Order::Asc, a4.clone(), &u3(), true));
         v.push(populated(
             mem2(),
@@ -496,7 +502,9 @@ fn spec_for(id: &str, tier: Tier) -> Spec {
         }
         "C20" => {
             let thorough = tier == Tier::Thorough;
-            let a = |u: Universe| alphabet(u, &W1, 1, true);
+            // append cap 2: files of one byte (all initial lower-layer files) can still be appended
+            // to, so that the overlay's copy-up runs under every fault position
+            let a = |u: Universe| alphabet(u, &W1, 2, true);
             let ov = mem2();
             let mut plans = vec![
                 plain(Cfg::Mem, Order::Asc, a(u22())),
@@ -816,7 +824,7 @@ fn c12_extras(ctx: &Ctx) -> (Stats, Vec<Violation>) {
                 for (name, r, classify) in calls {
                     n += 1;
                     if let Err(e) = r {
-                        for (k, w) in errpath_violations(&e, p, None) {
+                        for (k, w) in errpath_violations(&e, p, None, false) {
                             vio.push(mk(format!("{}|{}|{}", name, cls, k), format!("{}({:?}): {}", name, p, w)));
                         }
                         if classify && missing && e.kind != Kind::NotFound {
@@ -853,7 +861,7 @@ fn c12_extras(ctx: &Ctx) -> (Stats, Vec<Violation>) {
                         Ok(Ok(items)) => {
                             for e in items.iter().filter_map(|x| x.as_ref().err()) {
                                 // the error must name the vanished directory or something inside it
-                                for (k, w) in errpath_violations(e, q, None) {
+                                for (k, w) in errpath_violations(e, q, None, true) {
                                     vio.push(mk(format!("walk-vanishing-dir|{}", k), format!("walk_dir with {:?} removed after {} items yielded an error item: {}", q, i, w)));
                                 }
                             }
